@@ -197,34 +197,46 @@ def rule_lasterr(X, R, rule="R20-lasterr"):
 
 
 def rule_status(X, R, rule="R20-status"):
+    import sem
     n = 0
     for it in extern_fns(X):
         h = X.hir_by_dp.get(it["dp"])
         if not h or "body" not in h:
             continue
         fn = norm(it["path"])
-        for m in exprs(h["body"], "Match", into_closures=False):
-            s = strip(m["scrut"])
-            if not (s.get("k") == "Call" and norm(s.get("callee", "")) == "wirefilter::panic::catch_panic"):
-                continue
-            n += 1
-            nested = "Result<core::result::Result" in norm(s.get("ty", ""))
-            for a in m["arms"]:
-                p = a["pat"]
-                outer = pat_variant(p)
-                want = None
-                if outer == "core::result::Result::Err":
-                    want = "Panic"
-                elif outer == "core::result::Result::Ok":
-                    inner = pat_variant(p["pats"][0]) if p.get("pats") else None
-                    if nested and inner == "core::result::Result::Err":
-                        want = "Error"
-                    else:
-                        want = "Success"
-                got = status_of(X, tail(a["body"]))
-                R.check(got == want, rule, fn, "catch_panic arm %s -> Status::%s" % (
-                    "Err" if want == "Panic" else ("Ok(Err)" if want == "Error" else "Ok"), want),
-                    "arm yields Status::%s" % got, a["sp"])
+        S = sem.Sem(X, h)
+        cps = [x for x in S.sites() if x.node.get("k") == "Call" and norm(x.node.get("callee", "")) == "wirefilter::panic::catch_panic"]
+        for cp in cps:
+            nested = "Result<core::result::Result" in norm(cp.node.get("ty", ""))
+            on_cp = lambda v, cp=cp: S.resolve(v.node, v.frame).node is cp.node
+            seen_cases = set()
+            for x in S.sites():
+                # a value that carries a Status (struct literal with a status field, or a *::ERROR / *::PANIC constant) ...
+                if x.node.get("k") not in ("Struct", "Path"):
+                    continue
+                got = status_of(X, x.node)
+                if got is None:
+                    continue
+                # ... reached under a known outcome of this catch_panic call
+                case = None
+                for a_, pol in sem.is_literals(x.pc):
+                    if not pol or len(a_.scruts) != 1 or not on_cp(a_.scruts[0]):
+                        continue
+                    alts = {y[0] for y in a_.alts}
+                    if all(y.startswith("Result::Err") for y in alts):
+                        case = "Panic"
+                    elif nested and all(y.startswith("Result::Ok(Result::Err") for y in alts):
+                        case = "Error"
+                    elif all(y.startswith("Result::Ok") for y in alts) and not (nested and any(y == "Result::Ok" for y in alts)):
+                        case = "Success"
+                if case is None:
+                    continue
+                seen_cases.add(case)
+                R.check(got == case, rule, fn, "catch_panic arm %s -> Status::%s" % (
+                    "Err" if case == "Panic" else ("Ok(Err)" if case == "Error" else "Ok"), case),
+                    "arm yields Status::%s" % got, x.node.get("sp", ""))
+            if seen_cases:
+                n += 1
     R.floor(rule, "match catch_panic(..) sites in extern functions", n, 5)
     # named constants
     k = 0
